@@ -410,12 +410,13 @@ def worlds(draw, ninst=3, hostile_names=True, split_paths=False, foreign_ids=Fal
         root[other] = draw(st.sampled_from(["http://ex.test/elsewhere/", "http://other.test/q/", "zzz/"]))
         classes.append("foreign-id-keyword")
     xs = draw(st.lists(instances(), min_size=ninst, max_size=ninst))
-    if draw(st.integers(0, 3)) == 0:
+    plain_items_ref = isinstance(root.get("items"), dict) and set(root["items"]) == {"$ref"}
+    if draw(st.integers(0, 3)) == 0 or (plain_items_ref and draw(st.booleans())):
         # sizes far beyond the rest: an object with two dozen members, an array of forty elements, both also nested once
         v1, v2 = draw(inst_scalar), draw(inst_scalar)
         big_o = dict([(k, v1) for k in ("a", "b", "c", "k", "")] + [("w%d" % i, v2 if i % 2 else i) for i in range(20)])
         big_a = [v1 if i % 3 else v2 for i in range(40)]
-        xs = xs + [big_o, big_a, {"a": big_o, "b": big_a, "k": big_o}, [big_o, big_a, big_o]]
+        xs = [big_a] + xs + [big_o, {"a": big_o, "b": big_a, "k": big_o}, [big_o, big_a, big_o]]
         classes.append("big-instances")
     if foreign_instances:
         xs = list(draw(st.permutations(foreign_instances))) + xs
